@@ -88,7 +88,7 @@ CLAIMED = {
              "RwLock cells are one state machine up to how a conflict fails, and the library's access pattern never conflicts; "
              "cfg(feature) sites regenerated from source are only the two inner modules. Tied to the code by the compact-list "
              "op-sequence differential and by running the same seeded workload under four separately built binaries "
-             "(numeric comparison, -0 = 0). `sum` equality up to the sign of zero is not proved (partial).",
+             "(numeric comparison, -0 = 0). `sum`: same float or both a zero, for every such push sequence (adding +0.0 never changes a binary64 accumulator except for the sign of zero - Flocq).",
         tech="Coq refinement proof (compact vs raw strain list) + four-feature-build differential"),
     "C20": dict(
         text="Coq theorems: calculations modelled as deterministic steppers over private state with a shared read-only "
